@@ -593,7 +593,7 @@ def few_chunks(r, data):
 class Alarm(BaseException): pass
 def _alarm(sig, frm): raise Alarm()
 
-def guarded_run(rig, st, seconds=5):
+def guarded_run(rig, st, seconds=3):
     """one pass of the real drivers.run() under a watchdog: a loop that does not return is a failure, not a wait"""
     import signal
     signal.signal(signal.SIGALRM, _alarm)
@@ -602,6 +602,8 @@ def guarded_run(rig, st, seconds=5):
         rig.drivers.run()
     except Alarm:
         st.crash = 'Alarm'
+    if st.crash == 'Alarm':
+        rig.hangs = getattr(rig, 'hangs', 0) + 1
     finally:
         signal.alarm(0)
 
@@ -656,6 +658,8 @@ def run_l3(rig, r, lines, fault, probe_key, eof=False):
 def l3_cases(rig, r, n):
     cases = []; mlines = []; spans = []
     for i in range(n):
+        if getattr(rig, 'hangs', 0) >= 3:
+            break                     # the loop hangs: three replays are enough, every further one costs the watchdog delay
         lines = [gen_hostile_line(r) for _ in range(r.randint(1, 12))]
         if r.random() < 0.05:
             k_ = r.randrange(len(lines) + 1)
@@ -667,7 +671,7 @@ def l3_cases(rig, r, n):
         obs, ops = run_l3(rig, r, lines, fault, key, eof)
         ok = True; msg = ''
         if obs['crash'] in ('Hang', 'Alarm'):
-            ok = False; msg = 'the driver loop does not return (%s) after %r' % ('recv() on a blocking socket with nothing to read' if obs['crash'] == 'Hang' else 'drivers.run() — feedMsg of the last line fed — did not return within 5 s', lines)
+            ok = False; msg = 'the driver loop does not return (%s) after %r' % ('recv() on a blocking socket with nothing to read' if obs['crash'] == 'Hang' else 'drivers.run() — feedMsg of the last line fed — did not return within 3 s', lines)
         elif obs['crash'] or not obs['registered']:
             ok = False; msg = 'driver removed from drivers._drivers (exception %s escaped run()) after %r' % (obs['crash'], lines)
         elif obs['answered'] is False:
